@@ -365,7 +365,7 @@ def cmdResolve (family mode zones cache script question expect impl : String) : 
       let oracle := if verdicts.isEmpty then "ok" else ",".intercalate verdicts
       -- with several nameservers per zone the referral host order comes out of a HashSet:
       -- the model is not authoritative there, only the specification oracles judge the case
-      let modelAuthoritative := family != "universeN"
+      let modelAuthoritative := family != "universeN" && family != "mutual"
       let resTag := ((showResolved false res).splitOn " ").take 2
       { model := if modelAuthoritative then modelOut else impl, oracle,
         tags := s!"{family}/{(mode.splitOn ":").headD ""}/{" ".intercalate resTag}/x{log.length}" }
